@@ -90,13 +90,31 @@ def rule_map(c: Ctx) -> RuleResult:
             nstores += 1
             key = f"{f.short}|{alpha(f, val)}|{what}"
             where = c.where(f, stmt)
+            # `list(m)` / `m[:]` / `m.copy()` of a local bound once to a two-element list literal is that literal (a copy of a map
+            # that is itself checked where it is built)
+            v0 = val
+            if isinstance(v0, ast.Call) and isinstance(v0.func, ast.Name) and v0.func.id == "list" and len(v0.args) == 1:
+                v0 = v0.args[0]
+            elif isinstance(v0, ast.Call) and isinstance(v0.func, ast.Attribute) and v0.func.attr == "copy" and not v0.args:
+                v0 = v0.func.value
+            elif isinstance(v0, ast.Subscript) and isinstance(v0.slice, ast.Slice) and v0.slice.lower is None and v0.slice.upper is None:
+                v0 = v0.value
+            stmt_for_vn = stmt
+            if isinstance(v0, ast.Name):
+                ds = [n_ for n_ in own_nodes(f.node) if isinstance(n_, ast.Assign) and any(isinstance(t, ast.Name) and t.id == v0.id for t in n_.targets)]
+                if len(ds) == 1 and isinstance(ds[0].value, ast.List) and len(ds[0].value.elts) == 2:
+                    val, stmt_for_vn = ds[0].value, ds[0]
             if not (isinstance(val, ast.List) and len(val.elts) == 2):
                 # a map copied from another token's map / a name bound to a checked list is fine; anything else is not decidable
                 r.add(key, where, f.short, U(stmt)[:80], "violation", "map value is not a two-element list literal: identity not decidable")
                 continue
+            if stmt_for_vn is not stmt:
+                stmt = stmt_for_vn            # judged where the list is built
+            from ..interproc import expand
             dk = (f.short, alpha(f, val))
-            if dk in DEVIATIONS:
-                r.add(key, where, f.short, U(stmt)[:80], "exempt", "row-level map: " + DEVIATIONS[dk])
+            dk2 = (f.short, alpha(f, ast.List(elts=[expand(c, f, e_, stmt) for e_ in val.elts], ctx=ast.Load())))
+            if dk in DEVIATIONS or dk2 in DEVIATIONS:
+                r.add(key, where, f.short, U(stmt)[:80], "exempt", "row-level map: " + DEVIATIONS[dk if dk in DEVIATIONS else dk2])
                 continue
             a, b = val.elts
             owners = [n for n in cfg.owner(stmt) if res.get(n.id) is not None]
@@ -111,6 +129,12 @@ def rule_map(c: Ctx) -> RuleResult:
                 if isinstance(a, ast.BinOp) and isinstance(a.left, ast.Name) and a.left.id == start and isinstance(a.right, ast.Constant) \
                         and isinstance(a.op, ast.Add) and f.short == "table":
                     first_ok, first_dev = True, " (table body starts two lines below the header)"
+                elif f.module.rel == "rules_block/table.py" and isinstance(a, ast.Name) and start:
+                    # the body-row cursor: a line at least two below the header on every path to this store
+                    fcfg, fres = c.facts(f)
+                    zs = [fres.get(n_.id) for n_ in fcfg.owner(stmt)]
+                    if zs and all(z is not None and z.entails(start, a.id, -2) for z in zs):
+                        first_ok, first_dev = True, " (table body: the row cursor, at least two lines below the header)"
             if not first_ok:
                 r.add(key + "|start", where, f.short, U(stmt)[:80], "violation",
                       f"the map does not start at the rule's start line `{start}` (first element is `{U(a)}`): the token would claim lines "
@@ -220,6 +244,12 @@ def _placeholder(c: Ctx, f: Func, cfg: CFG, res: dict, vn: VN, stmt: ast.AST, L:
                 # after its creation the alias holds a non-empty list: `if L:` can only take its true edge
                 stack.extend(m for (m, l) in n.succ if l == "T")
                 continue
+            if n.kind == "test" and isinstance(n.ast, ast.Compare) and len(n.ast.ops) == 1 and isinstance(n.ast.left, ast.Name) \
+                    and n.ast.left.id == L and isinstance(n.ast.comparators[0], ast.Constant) and n.ast.comparators[0].value is None:
+                # ... and is not None
+                lab = "F" if isinstance(n.ast.ops[0], (ast.Is, ast.Eq)) else "T"
+                stack.extend(m for (m, l) in n.succ if l == lab)
+                continue
             stack.extend(m for (m, l) in n.succ if l != "exc")
         if cr.id in _reach_feasible(cfg, cr, L, once):
             in_loop = True
@@ -262,6 +292,11 @@ def _reach_feasible(cfg: CFG, cr: Node, L: str, once: dict[int, str]) -> set[int
         seen.add(n.id)
         if n.kind == "test" and once.get(id(n.ast)) == L:
             stack.extend(m for (m, l) in n.succ if l == "F")
+            continue
+        if n.kind == "test" and isinstance(n.ast, ast.Compare) and len(n.ast.ops) == 1 and isinstance(n.ast.left, ast.Name) \
+                and n.ast.left.id == L and isinstance(n.ast.comparators[0], ast.Constant) and n.ast.comparators[0].value is None:
+            lab = "F" if isinstance(n.ast.ops[0], (ast.Is, ast.Eq)) else "T"
+            stack.extend(m for (m, l) in n.succ if l == lab)
             continue
         stack.extend(m for (m, l) in n.succ if l != "exc")
     return seen
